@@ -1,9 +1,164 @@
 import NibabelModel.Model.C01
+import NibabelModel.Generated.C01FileTypes
 import Driver.Util
-/-! Line-protocol driver for C01: `C01 <op> <args...>` -> one observable line. -/
+/-! Line-protocol driver for C01: `C01 <op> <args...>` -> one observable line.
+
+  rt <class> <endian < | >> <out dtype> <offset | _> <shape> <in: raw | u<w> | i<w>> <vals>
+       raw : vals = elements in logical C order, `,`-separated, components `:`-separated (bit
+             patterns already in on-disk representation); `-` = no elements
+       u/i : vals = signed decimal integers (the model takes the scaling decision and casts)
+     -> ok flen=<len of data file> pad0=<1|0> data=<hex of the data region> tail=<bytes after it>
+           shape=[..] vals=<loaded elements, logical C order, same syntax>
+        | scaling | ERR:<kind>
+  sn <base|slope> <in> <out> <size> <range: i:<mn>:<mx> | fz | fn | fo>  -> false | true | ERR:WriterError
+  codec <name as ,-separated code points>                           -> raw | gz | bz2 | zst
+  rd <class> <endian> <out dtype> <shape> <data file length>   -> ok <shape> | ERR:OSError
+  opener <name as ,-separated code points>     -> <codec opened for 'wb'> <codec opened for 'rb'>
+  mghshape <shape>            -> <image shape> <header shape | ERR:ValueError> <ok | ERR:HeaderDataError>
+-/
 namespace Nb.Drv.C01
+open Nb Nb.C01
+
+def hexDigit (n : Nat) : Char := "0123456789abcdef".toList.getD n '?'
+def hexOf (bs : List Nat) : String :=
+  String.ofList (bs.flatMap (fun b => [hexDigit (b / 16 % 16), hexDigit (b % 16)]))
+
+def parseElem? (s : String) : Option Elem := (s.splitOn ":").mapM (·.toNat?)
+
+def parseElems? (s : String) : Option (List Elem) :=
+  if s = "-" then some [] else (s.splitOn ",").mapM parseElem?
+
+def showElem (x : Elem) : String := ":".intercalate (x.map toString)
+def showElems (l : List Elem) : String := if l.isEmpty then "-" else ",".intercalate (l.map showElem)
+
+def parseEndian? (s : String) : Option Endian :=
+  if s = "<" then some .little else if s = ">" then some .big else none
+
+def errName : Err → String
+  | .writer => "ERR:WriterError" | .short => "ERR:OSError"
+  | .headerData => "ERR:HeaderDataError" | .value => "ERR:ValueError"
+
+def lookupClass (name : String) : Option (String × Nat × Nat × Nat × Bool × Bool) :=
+  (Gen.classes.find? (fun c => c.1 = name)).map (·.2)
+
+def codecTable : List (String × Codec) := codecTableOf Gen.compressExtMap
+
+def parseIntDType? (s : String) : Option (Bool × Nat) :=
+  match dtypeOfName s with
+  | some ⟨.uint, w, 1⟩ => some (false, w)
+  | some ⟨.sint, w, 1⟩ => some (true, w)
+  | _ => none
+
+/-- the logical array given by its C-order element list -/
+def arrOfC (shape : List Nat) (xs : List Elem) : List Nat → Elem :=
+  fun i => xs.getD (ravelC shape i) []
+
+def report (file : List Nat) (hlen offset : Nat) (e : Endian) (t : DType) (shape : List Nat) : String :=
+  let n := shape.prod * t.itemsize
+  match readData file offset e t.cw t.k shape with
+  | .error er => errName er
+  | .ok (sh, els) =>
+      let pad := (file.drop hlen).take (offset - hlen)
+      "ok flen=" ++ toString file.length ++ " pad0=" ++ (if pad.all (· == 0) then "1" else "0") ++
+      " data=" ++ hexOf ((file.drop offset).take n) ++ " tail=" ++ toString (file.length - offset - n) ++
+      " shape=" ++ showList sh ++ " vals=" ++ showElems ((enumC sh).map (loadedAt sh els))
+
+def runRt (cls : String) (e : Endian) (t : DType) (offset : Option Nat) (shape : List Nat)
+    (xs : List Elem) : String :=
+  match lookupClass cls with
+  | none => "bad-op"
+  | some (layout, hlen, defOff, ftrLen, _, _) =>
+    if xs.length ≠ shape.prod then "bad-op"
+    else if layout = "mgh" then
+      if e ≠ .big ∨ offset.isSome then "bad-op"
+      else
+        let ishape := mghImageShape shape
+        match mghWrite (List.replicate hlen 1) (List.replicate ftrLen 2) t.cw ishape (arrOfC ishape xs) with
+        | .error er => errName er
+        | .ok file => report file hlen mghDataOffset .big t ishape
+    else
+      -- offset 0 in a single-file header means "use the default" (nifti1.py get_data_offset users)
+      let off := match offset with
+        | none => defOff
+        | some o => if layout = "single" ∧ o = 0 then defOff else o
+      if hlen > off then "ERR:HeaderDataError"
+      else
+        let file := writeFile (List.replicate hlen 1) off e t.cw shape (arrOfC shape xs)
+        report file hlen off e t shape
 
 def handle : List String → String
+  | ["rt", cls, e, out, off, shape, inT, vals] =>
+      match parseEndian? e, dtypeOfName out, parseOptInt? off, parseNatList? shape with
+      | some e, some t, some off, some shape =>
+          match off with
+          | some (.negSucc _) => "bad-op"
+          | _ =>
+          let off := off.map Int.toNat
+          if inT = "raw" then
+            match parseElems? vals with
+            | some xs => if xs.all (fun x => x.length == t.k) then runRt cls e t off shape xs else "bad-op"
+            | none => "bad-op"
+          else
+            match parseIntDType? inT, parseIntList? vals, lookupClass cls with
+            | some (aS, aw), some vs, some (layout, _, _, _, hasSlope, _) =>
+                if !t.isInt then "bad-op" else
+                let a : DType := ⟨if aS then .sint else .uint, aw, 1⟩
+                -- MGH calls array_to_file directly (no scaling_needed); same in-range domain
+                let need := if layout = "mgh" then scalingNeededBase a t vs.length (intRange vs)
+                            else if hasSlope then scalingNeededSlope a t vs.length (intRange vs)
+                            else scalingNeededBase a t vs.length (intRange vs)
+                match need with
+                | .error er => errName er
+                | .ok true => "scaling"
+                | .ok false => runRt cls e t off shape (vs.map (fun v => [toBits t.cw v]))
+            | _, _, _ => "bad-op"
+      | _, _, _, _ => "bad-op"
+  | ["sn", wr, a, o, size, rng] =>
+      let r : Option Range :=
+        if rng = "fz" then some .floatZero else if rng = "fn" then some .floatNone
+        else if rng = "fo" then some .floatOther
+        else match rng.splitOn ":" with
+          | ["i", mn, mx] => match mn.toInt?, mx.toInt? with
+            | some mn, some mx => some (.ints mn mx)
+            | _, _ => none
+          | _ => none
+      match dtypeOfName a, dtypeOfName o, size.toNat?, r with
+      | some a, some o, some size, some r =>
+          let res := if wr = "base" then some (scalingNeededBase a o size r)
+                     else if wr = "slope" then some (scalingNeededSlope a o size r) else none
+          match res with
+          | some (.ok b) => toString b
+          | some (.error er) => errName er
+          | none => "bad-op"
+      | _, _, _, _ => "bad-op"
+  | ["codec", name] =>
+      match parseNatList? name with
+      | some cps => (codecFor codecTable Gen.compressExtIcase (cps.map Char.ofNat)).name
+      | none => "bad-op"
+  | ["opener", name] =>
+      match parseNatList? name with
+      | some cps =>
+          let nm := cps.map Char.ofNat
+          (openerInit codecTable Gen.compressExtIcase .wb nm).1.name ++ " " ++
+            (openerInit codecTable Gen.compressExtIcase .rb nm).1.name
+      | none => "bad-op"
+  | ["rd", cls, e, out, shape, flen] =>
+      match lookupClass cls, parseEndian? e, dtypeOfName out, parseNatList? shape, flen.toNat? with
+      | some (_, _, defOff, _, _, _), some e, some t, some shape, some flen =>
+          match readData (List.replicate flen 0) defOff e t.cw t.k shape with
+          | .ok (sh, _) => "ok " ++ showList sh
+          | .error er => errName er
+      | _, _, _, _, _ => "bad-op"
+  | ["mghshape", shape] =>
+      match parseNatList? shape with
+      | some shape =>
+          let ishape := mghImageShape shape
+          match mghHeaderShape ishape with
+          | .error er => showList ishape ++ " " ++ errName er ++ " -"
+          | .ok hs => showList ishape ++ " " ++ showList hs ++ " " ++
+              (match mghWrite [] [] 1 ishape (fun _ => [0]) with
+               | .ok _ => "ok" | .error er => errName er)
+      | none => "bad-op"
   | _ => "bad-op"
 
 end Nb.Drv.C01
